@@ -528,6 +528,11 @@ def variants(root):
         B('weight leaves its row', fn, 'R[a, d] = R[a, b]\n', 'R[a, d] = R[c, d]\n', 'B',
           also=[(R, 'R[c, b] = R[c, d]\n', 'R[c, b] = R[a, b]\n', 1)]) if False else None
         N('comparison sides swapped', fn, 'a != c and a != d and b != c and b != d', 'c != a and d != a and c != b and d != b')
+        blk = 'R[a, d] = R[a, b]\n%sR[a, b] = 0\n%sR[c, b] = R[c, d]\n%sR[c, d] = 0\n'
+        for ind in ('                    ', '                        ', '                            ', '                '):
+            N('parallel assignment', fn, blk % (ind, ind, ind), 'R[a, d], R[c, b] = R[a, b], R[c, d]\n%sR[a, b] = R[c, d] = 0\n' % ind)
+            B('parallel assignment crosses the weights', fn, blk % (ind, ind, ind),
+              'R[a, d], R[c, b] = R[c, d], R[a, b]\n%sR[a, b] = R[c, d] = 0\n' % ind, 'B6.')
         B('edge list from a triangle only', fn, 'i, j = np.where(R)', 'i, j = np.where(np.tril(R))', 'B0.')
     for fn in ['latmio_und', 'latmio_dir', 'latmio_und_connected', 'latmio_dir_connected']:
         B('undo with reversed permutation', fn, 'R[np.ix_(np.argsort(ind_rp), np.argsort(ind_rp))]', 'R[np.ix_(ind_rp[::-1], ind_rp[::-1])]', 'P.undo')
